@@ -2,15 +2,17 @@
 
 from __future__ import annotations
 
+import math
+
 import numpy as np
 
-from gridrv import instrument
+from gridrv import core, instrument
 from gridrv.oracles import ode_ref
 
 PROP = "C15"
 TITLE = "ODE solvers return the solution of the stated problem under any transformation"
 REQUIRED_HOOKS = ["ode.solve_ode_ivp", "ode.solve_ode_bvp", "returned-callable:transform", "returned-callable:direct"]
-REQUIRED_FAMILIES = ["ivp-o1", "ivp-o2", "ivp-o3", "bvp-o1", "bvp-o2", "bvp-o3"]
+REQUIRED_FAMILIES = ["ivp-o1", "ivp-o2", "ivp-o3", "bvp-o1", "bvp-o2", "bvp-o3", "ivp-pyfloat-span"]
 BUDGET = {"quick": 400, "thorough": 3000}
 MAX_DISCARD_FRACTION = 0.05
 RULE = (
@@ -33,7 +35,7 @@ LEVEL_TEXT = "Exploration: seeded manufactured problems with exact solutions ove
 TECHNIQUE = "runtime monitoring: reference-model monitor (method of manufactured solutions) on solve_ode_ivp / solve_ode_bvp and on the returned callable, plus differential monitor transformed-vs-direct"
 
 TOLS = [1e-4, 1e-6, 1e-8]
-METHODS = ["RK45", "DOP853", "Radau", "LSODA"]
+METHODS = ["RK45", "DOP853", "Radau", "BDF", "LSODA"]
 KM = [1, 2, 3, 2.5]
 ACC_FACTOR = 100.0  # |error| <= ACC_FACTOR * tol * scale
 EQ_FACTOR = 200.0
@@ -53,18 +55,27 @@ TRANSFORMS = (
 DECREASING = {"MultiExp", "Inverse(MultiExp)"}  # decreasing maps: decreasing mesh, rejected by scipy's solve_bvp (documented exclusion)
 
 
+PYFLOAT_NEEDS_SIZE = ("LinearInfinite", "Hyperbolic")  # their deriv() uses x.size: regular cases hand them NumPy floats
+
+
 def cases(tier, seed):
-    reps = 1 if tier == "quick" else 12
+    reps = 3 if tier == "quick" else 60
     out = []
     for rep in range(reps):
         for order in (1, 2, 3):
             for ti, tol in enumerate(TOLS):
                 for label, cls in TRANSFORMS:
                     for method in METHODS:
-                        cost = (1.0 + ti) * order * (2.0 if method in ("Radau",) else 1.0)
+                        cost = (1.0 + ti) * order * (2.0 if method in ("Radau", "BDF") else 1.0)
+                        if rep == 0 and method in ("Radau", "BDF") and order == 2 and label == "Identity" and ti == 1:
+                            cost = 1e9  # pinned witness: implicit methods on order >= 2
                         out.append((f"ivp-o{order}", {"method": method, "tol": tol, "tf": label, "rep": rep}, cost))
                     if label not in DECREASING:
                         out.append((f"bvp-o{order}", {"tol": tol, "tf": label, "rep": rep}, (1.0 + 2 * ti) * order * 2.0))
+        # x_span given as plain Python floats (the documented "tuple") through every transform
+        for label, cls in TRANSFORMS:
+            for order in (1, 2):
+                out.append(("ivp-pyfloat-span", {"method": "RK45", "tol": 1e-6, "tf": label, "order": order, "rep": rep}, 1e9 if (rep == 0 and label in PYFLOAT_NEEDS_SIZE) else 1.0))
     return out
 
 
@@ -76,66 +87,91 @@ def _param(label):
     return float(v) if "." in v else int(v)
 
 
-def build_transform(label, rng, kind):
-    """Real transform object with seeded admissible parameters; returns (tf, description)."""
+def build_transform(label, rng, kind, a, b):
+    """Real transform object with seeded admissible parameters for the x-interval [a, b]; returns (tf, description).
+
+    In 70 % of the cases the scale parameter is chosen so that the mean slope |r(b)-r(a)|/(b-a) of the map lies in
+    [0.5, 2] (the solver then integrates over an interval of comparable length: sharp tolerances); otherwise it is drawn freely
+    (R in [0.3, 3] etc.) and the tolerance scale accounts for the length of the transformed interval."""
     import grid.rtransform as rt
 
     p = _param(label)
     inv = label.startswith("Inverse(")
     base = label[8:-1] if inv else label
     name = base.split("(")[0]
+    L = b - a
+    slope = float(rng.uniform(0.5, 2.0))
+    normalised = bool(rng.random() < 0.7)
     if inv:
         rmin = float(rng.uniform(-0.3, 0.0))
         R = float(rng.uniform(1.0, 4.0))
     else:
         rmin = float(rng.uniform(0.0, 0.5))
-        R = float(rng.uniform(0.5, 3.0))
-    if name == "Becke":
-        tf, d = rt.BeckeRTransform(rmin, R), {"rmin": rmin, "R": R}
-    elif name == "Knowles":
-        tf, d = rt.KnowlesRTransform(rmin, R, p), {"rmin": rmin, "R": R, "k": p}
-    elif name == "Handy":
-        tf, d = rt.HandyRTransform(rmin, R, p), {"rmin": rmin, "R": R, "m": p}
+        R = float(rng.uniform(0.3, 3.0))
+
+    def unit_span(make):  # |phi(b) - phi(a)| of the map with unit scale parameter
+        t = make(1.0)
+        v = t.transform(np.array([a, b]))
+        return abs(float(v[1] - v[0]))
+
+    if name in ("Becke", "Knowles", "Handy", "MultiExp"):
+        make = {
+            "Becke": lambda RR: rt.BeckeRTransform(rmin, RR),
+            "Knowles": lambda RR: rt.KnowlesRTransform(rmin, RR, p),
+            "Handy": lambda RR: rt.HandyRTransform(rmin, RR, p),
+            "MultiExp": lambda RR: rt.MultiExpRTransform(rmin, RR),
+        }[name]
+        if normalised and not inv:
+            R = L * slope / unit_span(make)
+        tf, d = make(R), {"rmin": rmin, "R": R}
     elif name == "HandyMod":
         # admissible (increasing, pole-free) iff rmax - rmin > 2^m - 1
         rmax = rmin + 2.0**p - 1.0 + float(rng.uniform(1.0, 20.0))
         if inv:
             rmax = max(rmax, 6.5 + float(rng.uniform(0.0, 10.0)))
-        tf, d = rt.HandyModRTransform(rmin, rmax, p), {"rmin": rmin, "rmax": rmax, "m": p}
+        tf, d = rt.HandyModRTransform(rmin, rmax, p), {"rmin": rmin, "rmax": rmax}
     elif name == "LinearFinite":
         if inv:
             rmin, rmax = float(rng.uniform(-0.3, 0.05)), float(rng.uniform(6.2, 12.0))
         else:
             rmin = float(rng.uniform(-1.0, 1.0))
-            rmax = rmin + float(rng.uniform(0.5, 10.0))
+            rmax = rmin + (2.0 * slope if normalised else float(rng.uniform(0.5, 10.0)))
         tf, d = rt.LinearFiniteRTransform(rmin, rmax), {"rmin": rmin, "rmax": rmax}
-    elif name == "MultiExp":
-        tf, d = rt.MultiExpRTransform(rmin, R), {"rmin": rmin, "R": R}
     elif name == "Identity":
         tf, d = rt.IdentityRTransform(), {}
     elif name == "LinearInfinite":
-        rmin = float(rng.uniform(0.0, 1.0))
-        rmax, b = rmin + float(rng.uniform(1.0, 10.0)), float(rng.uniform(3.0, 10.0))
-        tf, d = rt.LinearInfiniteRTransform(rmin, rmax, b), {"rmin": rmin, "rmax": rmax, "b": b}
+        rmin, bb = float(rng.uniform(0.0, 1.0)), float(rng.uniform(3.0, 10.0))
+        rmax = rmin + (bb * slope if normalised else float(rng.uniform(1.0, 10.0)))
+        tf, d = rt.LinearInfiniteRTransform(rmin, rmax, bb), {"rmin": rmin, "rmax": rmax, "b": bb}
     elif name == "Exp":
+        bb, ratio = float(rng.uniform(3.0, 10.0)), float(rng.uniform(5.0, 100.0))
         rmin = float(rng.uniform(0.05, 0.5))
-        rmax, b = rmin * float(rng.uniform(5.0, 100.0)), float(rng.uniform(3.0, 10.0))
-        tf, d = rt.ExpRTransform(rmin, rmax, b), {"rmin": rmin, "rmax": rmax, "b": b}
+        if normalised:
+            rmin = L * slope / unit_span(lambda q: rt.ExpRTransform(1.0, ratio, bb))
+        tf, d = rt.ExpRTransform(rmin, rmin * ratio, bb), {"rmin": rmin, "rmax": rmin * ratio, "b": bb}
     elif name == "Power":
-        rmin, b = float(rng.uniform(0.05, 0.5)), float(rng.uniform(3.0, 10.0))
-        rmax = rmin * (b + 1.0) ** float(rng.uniform(2.0, 3.5))
-        tf, d = rt.PowerRTransform(rmin, rmax, b), {"rmin": rmin, "rmax": rmax, "b": b}
+        bb, power = float(rng.uniform(3.0, 10.0)), float(rng.uniform(2.0, 3.5))
+        rmin = float(rng.uniform(0.05, 0.5))
+        if normalised:
+            rmin = L * slope / unit_span(lambda q: rt.PowerRTransform(1.0, (bb + 1.0) ** power, bb))
+        tf, d = rt.PowerRTransform(rmin, rmin * (bb + 1.0) ** power, bb), {"rmin": rmin, "rmax": rmin * (bb + 1.0) ** power, "b": bb}
     elif name == "Hyperbolic":
-        a = float(rng.uniform(0.5, 3.0))
+        aa = slope if normalised else float(rng.uniform(0.3, 3.0))
         # the class requires b*(number of points - 1) < 1 for every array it sees: IVP sees <= NPTS points,
-        # BVP sees the whole adaptive mesh (kept below 1/b by max_nodes)
-        b = float(rng.uniform(0.005, 0.02)) if kind == "ivp" else float(rng.uniform(0.001, 0.002))
-        tf, d = rt.HyperbolicRTransform(a, b), {"a": a, "b": b}
+        # BVP sees the whole adaptive mesh (bounded by max_nodes = BVP_NODES_HYPERBOLIC)
+        bb = float(rng.uniform(0.005, 0.02)) if kind == "ivp" else float(rng.uniform(0.5, 0.9)) / BVP_NODES_HYPERBOLIC
+        tf, d = rt.HyperbolicRTransform(aa, bb), {"a": aa, "b": bb}
     else:
         raise ValueError(label)
+    if p is not None:
+        d["k" if name == "Knowles" else "m"] = p
+    d["normalised_slope"] = normalised
     if inv:
         tf = rt.InverseRTransform(tf)
     return tf, d
+
+
+BVP_NODES_HYPERBOLIC = 1000
 
 
 # ------------------------------------------------------------------------------------------------ monitors on the API
@@ -157,14 +193,30 @@ class _NoConvergence(Exception):
     pass
 
 
+_MISSING = object()
+
+
+def _quantise(exc):
+    msg = str(exc)
+    if "non-broadcastable output operand" in msg:
+        return "non-broadcastable-rhs"
+    if "'float' object has no attribute 'size'" in msg:
+        return "float.size"
+    return "".join(ch for ch in msg[:48] if not ch.isdigit())
+
+
 def _call(ctx, subject, fn, *args, **kwargs):
-    """Call the real solver; 'did not converge' -> _NoConvergence (discard); any other library exception is a violation."""
+    """Call real library code.  'did not converge' -> _NoConvergence (case discarded); any other exception raised
+    through library frames is a violation of 'solves-admissible-problem' (all inputs here are admissible)."""
     try:
         return fn(*args, **kwargs)
-    except ValueError as exc:
-        if "didn't converge" in str(exc):
+    except Exception as exc:
+        if not core.is_library_exception(exc):
+            raise
+        if isinstance(exc, ValueError) and "didn't converge" in str(exc):
             raise _NoConvergence(str(exc)) from None
-        raise
+        ctx.fail("solves-admissible-problem", subject, f"raised:{type(exc).__name__}:{_quantise(exc)}", detail={"error": str(exc)[:300], "tb": core.short_tb(exc)})
+        return _MISSING
 
 
 # ------------------------------------------------------------------------------------------------ one case
@@ -173,8 +225,10 @@ def run_case(ctx, family, params):
 
     rng = ctx.rng
     np.random.seed(int(rng.integers(0, 2**32 - 1)))  # solve_ode_bvp draws its default initial guess from the global RNG
-    kind, order = family[:3], int(family[-1])
-    tol, label = float(params["tol"]), params["tf"]
+    pyfloat = family == "ivp-pyfloat-span"
+    kind = family[:3]
+    order = int(params["order"]) if pyfloat else int(family[-1])
+    tol, label, method = float(params["tol"]), params["tf"], params.get("method")
     cls = dict(TRANSFORMS)[label]
     short = kind == "bvp" and order == 3
     L = float(rng.uniform(0.5, 1.0)) if short else float(rng.uniform(0.6, 1.8 if cls == "A" else 2.5))
@@ -185,39 +239,45 @@ def run_case(ctx, family, params):
     pr = ode_ref.random_problem(rng, order, xc=0.5 * (a + b), kind=kind, constant=(mode == "const"))
     if mode == "const":
         mode = str(rng.choice(["array", "list", "mixed", "callable"]))
-    tf, tfdesc = build_transform(label, rng, kind)
+    tf, tfdesc = build_transform(label, rng, kind, a, b)
     subject = f"{kind}:{label}"
+    esubj = f"{kind}-{method}:order{order}:{label}" if kind == "ivp" else f"bvp:order{order}:{label}"  # subject of exceptions
+    if pyfloat:
+        esubj += ":python-float-span"
     ctx.case_note("interval", [round(a, 4), round(b, 4)])
     ctx.case_note("coeff_mode", mode)
     ctx.case_note("transform", tfdesc)
     ctx.count(f"coeff_mode:{mode}")
 
+    backward = bool(kind == "ivp" and rng.random() < 0.25)
     xs = np.concatenate(([a, b], np.sort(rng.uniform(a, b, NPTS - 2))))
     exact = pr.exact(xs)  # (K, N)
-    sy = max(1.0, float(np.max(np.abs(exact))))
 
     # derivatives of the implemented map from its forward map only (never tf.deriv*)
     g = np.array([ode_ref.map_derivs(tf, x) for x in xs])  # (N, 2)
     g_end = {0: g[0, 0], 1: g[1, 0]}
-    scale_t = _transformed_scales(exact, g, order)
-    ctx.case_note("scale_direct", sy)
+    direction = 0 if kind == "bvp" else (-1 if backward else 1)
+    scale_d = _scales(pr, xs, exact, None, order, direction)
+    scale_t = np.maximum(_scales(pr, xs, exact, g, order, direction), scale_d)
+    ctx.case_note("scale_direct", [float(s) for s in scale_d])
     ctx.case_note("scale_transformed", [float(s) for s in scale_t])
+    rho = float(np.max(np.abs(g[:, 0])) / np.min(np.abs(g[:, 0])))
+    info = {"tol": tol, "method": method, "tf": tfdesc, "interval": [a, b], "coeff_mode": mode, "slope_ratio": rho}
 
     try:
         if kind == "ivp":
-            backward = bool(rng.random() < 0.25)
             x0, x1 = (b, a) if backward else (a, b)
             i0 = 1 if backward else 0
             y0 = [float(v) for v in exact[:, i0]]
             y0_arg = y0 if rng.random() < 0.5 else np.array(y0)
-            # HyperbolicRTransform.deriv needs an object with .size: hand NumPy floats to it (Python floats to the others)
-            span = (np.float64(x0), np.float64(x1)) if (label == "Hyperbolic" or rng.random() < 0.5) else (x0, x1)
+            # HyperbolicRTransform.deriv / LinearInfiniteRTransform.deriv need an object with .size: regular cases hand
+            # NumPy floats to them; the family ivp-pyfloat-span hands plain Python floats to every transform
+            np_span = (not pyfloat) and (label in PYFLOAT_NEEDS_SIZE or rng.random() < 0.5)
+            span = (np.float64(x0), np.float64(x1)) if np_span else (float(x0), float(x1))
             nod = bool(order >= 2 and rng.random() < 0.15)
-            kw = {"method": params["method"], "rtol": tol, "atol": tol}
-            with ctx.guard("solves-admissible-problem", subject + ":direct"):
-                sol_d = _call(ctx, subject, gode.solve_ode_ivp, span, pr.fx_callback(), pr.coeff_arg(mode), y0_arg, **kw)
-            with ctx.guard("solves-admissible-problem", subject):
-                sol_t = _call(ctx, subject, gode.solve_ode_ivp, span, pr.fx_callback(), pr.coeff_arg(mode), y0_arg, tf, no_derivatives=nod, **kw)
+            kw = {"method": method, "rtol": tol, "atol": tol}
+            sol_d = _call(ctx, esubj + ":direct", gode.solve_ode_ivp, span, pr.fx_callback(), pr.coeff_arg(mode), y0_arg, **kw)
+            sol_t = _call(ctx, esubj, gode.solve_ode_ivp, span, pr.fx_callback(), pr.coeff_arg(mode), y0_arg, tf, no_derivatives=nod, **kw)
             cond = [(i0, k, y0[k]) for k in range(order)]
             ctx.count("ivp-backward" if backward else "ivp-forward")
         else:
@@ -228,55 +288,56 @@ def run_case(ctx, family, params):
                 mesh[1:-1] += rng.uniform(-0.3, 0.3, n0 - 2) * (b - a) / (n0 - 1)
             guess = None if rng.random() < 0.6 else np.zeros((order, n0))
             nod = bool(order >= 2 and rng.random() < 0.15)
-            max_nodes = 400 if label == "Hyperbolic" else 5000
-            kw = {"tol": tol, "max_nodes": max_nodes, "initial_guess_y": guess}
-            with ctx.guard("solves-admissible-problem", subject + ":direct"):
-                sol_d = _call(ctx, subject, gode.solve_ode_bvp, mesh.copy(), pr.fx_callback(), pr.coeff_arg(mode), bd_direct, **kw)
-            with ctx.guard("solves-admissible-problem", subject):
-                if nod:  # default of solve_ode_bvp
-                    sol_t = _call(ctx, subject, gode.solve_ode_bvp, mesh.copy(), pr.fx_callback(), pr.coeff_arg(mode), bd_tf, tf, **kw)
-                else:
-                    sol_t = _call(ctx, subject, gode.solve_ode_bvp, mesh.copy(), pr.fx_callback(), pr.coeff_arg(mode), bd_tf, tf, no_derivatives=False, **kw)
+            kw = {"tol": tol, "max_nodes": BVP_NODES_HYPERBOLIC if label == "Hyperbolic" else 5000, "initial_guess_y": guess}
+            sol_d = _call(ctx, esubj + ":direct", gode.solve_ode_bvp, mesh.copy(), pr.fx_callback(), pr.coeff_arg(mode), bd_direct, **kw)
+            if nod:  # the default of solve_ode_bvp
+                sol_t = _call(ctx, esubj, gode.solve_ode_bvp, mesh.copy(), pr.fx_callback(), pr.coeff_arg(mode), bd_tf, tf, **kw)
+            else:
+                sol_t = _call(ctx, esubj, gode.solve_ode_bvp, mesh.copy(), pr.fx_callback(), pr.coeff_arg(mode), bd_tf, tf, no_derivatives=False, **kw)
     except _NoConvergence as exc:
-        ctx.discard("solver did not converge: " + str(exc)[-40:])
+        ctx.discard("solver did not converge: " + str(exc)[-10:])
         return
-    if "sol_d" not in locals() or "sol_t" not in locals():
-        return  # a guard recorded the exception
 
     # ---------------------------------------------------------------- the returned callables
-    with ctx.guard("solves-admissible-problem", subject + ":direct:evaluate"):
-        yd = np.asarray(sol_d(xs.copy()))
+    yd = yt = _MISSING
+    if sol_d is not _MISSING:
+        yd = _call(ctx, esubj + ":direct:returned-callable", lambda: np.asarray(sol_d(xs.copy())))
         ctx.hit("returned-callable:direct")
-    with ctx.guard("solves-admissible-problem", subject + ":evaluate"):
-        yt = np.asarray(sol_t(xs.copy()))
+    if sol_t is not _MISSING:
+        yt = _call(ctx, esubj + ":returned-callable", lambda: np.asarray(sol_t(xs.copy())))
         ctx.hit("returned-callable:transform")
-    if "yd" not in locals() or "yt" not in locals():
-        return
-    okd = ctx.check("output-shape", subject + ":direct", yd.shape == (order, NPTS), detail={"shape": list(yd.shape)})
-    want_t = (NPTS,) if nod else (order, NPTS)
-    okt = ctx.check("output-shape", subject + (":no_derivatives" if nod else ""), yt.shape == want_t, detail={"shape": list(yt.shape), "want": list(want_t)})
-    if not (okd and okt):
-        return
-    if nod:
-        ctx.count("no_derivatives=True")
-        yt = yt[None, :]
-    nk = yt.shape[0]
+    if yd is not _MISSING and not ctx.check("output-shape", f"{kind}:direct", yd.shape == (order, NPTS), detail={"shape": list(yd.shape)}):
+        yd = _MISSING
+    if yt is not _MISSING:
+        want_t = (NPTS,) if nod else (order, NPTS)
+        if not ctx.check("output-shape", subject + (":no_derivatives" if nod else ""), yt.shape == want_t, detail={"shape": list(yt.shape), "want": list(want_t)}):
+            yt = _MISSING
+        elif nod:
+            ctx.count("no_derivatives=True")
+            yt = yt[None, :]
 
-    # accuracy against the exact solution, per derivative order
-    for k in range(order):
-        err = float(np.max(np.abs(yd[k] - exact[k])))
-        ctx.check("direct-solution-accuracy", f"{kind}:direct", err / (tol * sy), ACC_FACTOR, sig=f"order{order}:d{k}", detail={"err": err, "tol": tol, "scale": sy, "method": params.get("method")})
-    for k in range(nk):
-        err = float(np.max(np.abs(yt[k] - exact[k])))
-        ctx.check("transformed-solution-accuracy", subject, err / (tol * scale_t[k]), ACC_FACTOR, sig=f"order{order}:d{k}", detail={"err": err, "tol": tol, "scale": scale_t[k], "method": params.get("method"), "tf": tfdesc, "problem": pr.describe(), "interval": [a, b]})
-        dif = float(np.max(np.abs(yt[k] - yd[k])))
-        ctx.check("transform-equivalence", subject, dif / (tol * scale_t[k]), EQ_FACTOR, sig=f"order{order}:d{k}", detail={"diff": dif, "tol": tol, "scale": scale_t[k], "method": params.get("method"), "tf": tfdesc})
-    # prescribed conditions (values w.r.t. the ORIGINAL variable: exact derivatives at the end points)
-    for end, k, val in cond:
-        ctx.check("conditions-met", f"{kind}:direct", abs(yd[k, end] - val) / (tol * sy), 10.0, sig=f"order{order}:d{k}")
-        if k < nk:
-            ctx.check("conditions-met", subject, abs(yt[k, end] - val) / (tol * scale_t[k]), 10.0, sig=f"order{order}:d{k}", detail={"got": float(yt[k, end]), "want": val, "end": end})
-    ctx.check("callbacks-used", subject, pr.calls["fx"] > 0 and (pr.calls["coef"] > 0 or mode in ("array", "list") or pr.is_constant() and mode == "mixed"))
+    # accuracy against the exact solution, per derivative order; prescribed conditions (values w.r.t. the ORIGINAL
+    # variable: the exact derivatives at the end points)
+    if yd is not _MISSING:
+        for k in range(order):
+            err = float(np.max(np.abs(yd[k] - exact[k])))
+            ctx.check("direct-solution-accuracy", f"{kind}:direct", err / (tol * scale_d[k]), ACC_FACTOR, sig=f"order{order}:d{k}", detail={"err": err, "scale": scale_d[k], **info, "problem": pr.describe()})
+        for end, k, val in cond:
+            ctx.check("conditions-met", f"{kind}:direct", abs(yd[k, end] - val) / (tol * scale_d[k]), COND_FACTOR, sig=f"order{order}:d{k}", detail={"got": float(yd[k, end]), "want": val, "end": end, **info})
+    if yt is not _MISSING:
+        for k in range(yt.shape[0]):
+            err = float(np.max(np.abs(yt[k] - exact[k])))
+            ctx.check("transformed-solution-accuracy", subject, err / (tol * scale_t[k]), ACC_FACTOR, sig=f"order{order}:d{k}", detail={"err": err, "scale": scale_t[k], **info, "problem": pr.describe()})
+            if yd is not _MISSING:
+                dif = float(np.max(np.abs(yt[k] - yd[k])))
+                ctx.check("transform-equivalence", subject, dif / (tol * scale_t[k]), EQ_FACTOR, sig=f"order{order}:d{k}", detail={"diff": dif, "scale": scale_t[k], **info})
+        for end, k, val in cond:
+            if k < yt.shape[0]:
+                ctx.check("conditions-met", subject, abs(yt[k, end] - val) / (tol * scale_t[k]), COND_FACTOR, sig=f"order{order}:d{k}", detail={"got": float(yt[k, end]), "want": val, "end": end, **info})
+        ctx.check("callbacks-used", subject, pr.calls["fx"] > 0 and (pr.calls["coef"] > 0 or mode in ("array", "list") or pr.is_constant()))
+
+
+COND_FACTOR = 10.0
 
 
 def _bvp_conditions(rng, order, exact, g_end):
@@ -302,24 +363,29 @@ def _bvp_conditions(rng, order, exact, g_end):
     return cond, bd_direct, bd_tf
 
 
-def _transformed_scales(exact, g, order):
-    """Magnitude of what the solver controls, expressed in the original variable.
+def _scales(pr, xs, exact, g, order, direction):
+    """Per derivative order: magnitude, in the ORIGINAL variable, of the error a solver working to within tol may leave.
 
-    The solver integrates Y(r), Y_r, Y_rr with tolerance tol*(1+|.|); y^(i)(x) = sum_j M_ij(x) Y^(j)(r) with the
-    Faa di Bruno matrix M of the map, so an error e_j in Y^(j) shows as sum_j |M_ij| e_j in y^(i)."""
-    n = exact.shape[1]
-    big = np.zeros((order, n))  # |Y^(j)| at the sample points
-    mats = []
-    big[0] = np.abs(exact[0])
-    for i in range(n):
-        m = ode_ref.bell_matrix(g[i, 0], g[i, 1], order - 1)
-        mats.append(m)
-        if order > 1:
-            big[1:, i] = np.abs(np.linalg.solve(m, exact[1:, i]))
-    ymax = 1.0 + big.max(axis=1)  # (order,)
-    s = np.zeros(order)
-    s[0] = max(ymax[0], 1.0)
-    for k in range(1, order):
-        s[k] = max(max(float(np.abs(m[k - 1]) @ ymax[1:]) for m in mats), ymax[0])
-    # an error in a lower derivative cannot be smaller than the function-value scale
-    return np.maximum(s, max(1.0, float(np.max(np.abs(exact)))))
+    Model (standard global-error representation): the solver commits, at every position s, a local error of at most
+    tol*(1+|Y^(j)(s)|) in each component of the vector it integrates - (y, y', y'') for the direct solve,
+    (Y, Y_r, Y_rr)(r) for the transformed one; expressed in the original variable this local error is
+    v(s) = |blockdiag(1, M(s))| (1 + |Y(s)|) with the Faa di Bruno matrix M of the map (g', g'' from the forward map), and
+    it is carried to position t by the propagator Phi(t, s) of the homogeneous ODE (computed here by an independent tight
+    integration of the companion system in the original variable).  scale_k = max_{s,t} sum_j |Phi(t,s)|_kj v_j(s), s ranging
+    over the positions passed before t (IVP, direction +1/-1) or over the whole interval (BVP, direction 0).
+    `g` None = direct solve (M = identity)."""
+    n = xs.size
+    v = 1.0 + np.abs(exact)  # (K, n)
+    if g is not None and order > 1:
+        for i in range(n):
+            m = ode_ref.bell_matrix(g[i, 0], g[i, 1], order - 1)
+            yr = np.linalg.solve(m, exact[1:, i])
+            v[1:, i] = np.abs(m) @ (1.0 + np.abs(yr))
+    phi = ode_ref.propagators(pr, xs)  # (n, K, K): Phi(xs[i], xs[0])
+    inv = np.linalg.inv(phi)
+    P = np.abs(np.einsum("tkl,slj->tskj", phi, inv))  # |Phi(t, s)|
+    contrib = np.einsum("tskj,js->tsk", P, v)  # (t, s, K)
+    if direction != 0:
+        later = (xs[:, None] - xs[None, :]) * direction >= 0  # s passed before (or at) t
+        contrib = np.where(later[:, :, None], contrib, 0.0)
+    return contrib.max(axis=(0, 1))
